@@ -15,6 +15,7 @@ import Mahotas.Proofs.C13OraclesNum
 import Mahotas.Proofs.C13OraclesFloat
 import Mahotas.Proofs.C13Wrappers
 import Mahotas.Proofs.C13Rounded
+import Mahotas.Proofs.C13RoundedP
 import Mahotas.Proofs.C13Perimeter
 import Mahotas.Proofs.Modes
 open Mahotas Mahotas.C13 Mahotas.C05
@@ -708,6 +709,30 @@ theorem C13_com_rounded_exact (rnd : ℚ → ℚ) (s : ℕ) (hr : ExactDyadic rn
     comModelG (rndOps rnd) shape (ks.map (dy s)) labels =
       (comSpec shape ks labels).map fun nd => rnd ((nd.1 : ℚ) / (nd.2 : ℚ)) :=
   comRounded_exact rnd s hr hr0 shape ks labels hnn hc hprod htot hrow
+
+/-- **C13 (labeled_sum accumulated in binary32 / any `p`-bit format).** The kernel's accumulator has the dtype of the image
+(`float` for float32 images). For round-to-nearest with a `p ≥ 1`-bit significand and any tie rule (`rndBinP p n`; `p = 24` is
+binary32, `p = 53` is `rndBin`: `rndBinP_53`) every dyadic `k / 2^s` with `|k| ≤ 2^p` is returned unchanged, and therefore the
+model of `labeled_sum` run with the addition `rnd (a + r)` in that format on data `k_i / 2^s` returns in slot `l` exactly
+`(Σ k_i) / 2^s` — the harness' oracle — whenever every partial sum (scan order) of the integers labelled `l` has magnitude at
+most `2^p` (the judge masks a float32 slot whose `Σ |k_i|` exceeds `2^24`; the generator stays far below). -/
+theorem C13_labeled_sum_rounded_exact_any_precision (p : ℕ) (hp : 1 ≤ p) (nr : ℚ → ℤ)
+    (hn : ∀ y, |(nr y : ℚ) - y| ≤ 1 / 2) (s : ℕ) (n : Nat) (data labels : List Int) (l : Nat) (hl : l < n)
+    (hb : ∀ pre a rest, valuesOf (data.zip labels) (l : Int) = pre ++ a :: rest →
+      |((a + pre.sum : Int) : ℚ)| ≤ 2 ^ p) :
+    ExactDyadicB (rndBinP p nr) s (2 ^ p) ∧
+    (sumRounded (rndBinP p nr) n ((data.map (dy s)).zip labels))[l]? =
+      some (dy s (valuesOf (data.zip labels) (l : Int)).sum) ∧
+    (sumRounded (rndBinP p nr) n ((data.map (dy s)).zip labels))[l]? =
+      ((foldSpec false "sum" n (data.zip labels)).map (dy s))[l]? :=
+  ⟨exactDyadicB_rndBinP p hp nr hn s,
+   sumRounded_exactB _ s _ (exactDyadicB_rndBinP p hp nr hn s) n data labels l hl hb⟩
+
+/-! non-vacuity: binary32 with ties-to-even leaves `5/8` and `-(2^24)/8` unchanged -/
+example : rndBinP 24 roundEven ((5 : ℤ) / 2 ^ 3) = (5 : ℤ) / 2 ^ 3 ∧
+    rndBinP 24 roundEven (((-(2 ^ 24) : ℤ) : ℚ) / 2 ^ 3) = ((-(2 ^ 24) : ℤ) : ℚ) / 2 ^ 3 :=
+  ⟨exactDyadicB_rndBinP 24 (by norm_num) roundEven roundEven_near 3 5 (by norm_num),
+   exactDyadicB_rndBinP 24 (by norm_num) roundEven roundEven_near 3 (-(2 ^ 24)) (by norm_num)⟩
 
 /-! non-vacuity: binary64 `roundTiesToEven` on the harness' scale (`k/8`), label 1 of a three-pixel image: the rounded
     fold returns exactly `(3 - 5)/8` -/
